@@ -27,6 +27,35 @@ NOT_DECIDED = ("that arbitrary sheets are grouped correctly at run time beyond t
 ASSUMPTIONS = ["representative rows stand for their shape class (complete / sparse / shared list / extra columns)", "csv.writer.writerow is positional"]
 
 
+def sparse_extra_columns_obligation(ctx, rule, rid):
+    repo = ctx.repo
+    scls = repo.cls("pyxform.survey:Survey")
+    ocls = repo.cls("pyxform.question:Option")
+    icls = repo.cls("pyxform.question:Itemset")
+    gsi = scls.methods["_generate_static_instances"]
+    # sparse extra columns: a column that is empty on the list's FIRST row (or on any other row) is still emitted for the
+    # rows that have it, in every position of the list
+    import itertools as _it2
+    cells = [{"region": "r1"}, {"pop": "5"}, None, {"region": "r2", "pop": "7"}]
+    for perm in _it2.permutations(range(4), 4):
+        opts_s = tuple(_mk(ctx, ocls, f"o{j}", label=f"L{j}", extra_data=(dict(cells[j]) if cells[j] else None)) for j in perm)
+        iset_s = Obj(icls, {"name": "lst", "options": opts_s, "requires_itext": False, "used_by_search": False}, name="itemset")
+        its = ctx.interp(rid, hooks={"fnname:node": node_hook, "new:InstanceInfo": lambda i, a, k, n: dict(k)})
+        its.reset([])
+        try:
+            info_s = its.call_function(gsi, [Obj(scls, {}, name="survey")], {"list_name": "lst", "itemset": iset_s}, None, gsi.node)
+            items_s = info_s["instance"].children[0].children
+            got_s = [{c.tag: c.text for c in item.children if c.tag not in ("name", "label")} for item in items_s]
+        except Raised as e:
+            got_s = f"raises {e.exc_name}"
+        want_s = [dict(cells[j]) if cells[j] else {} for j in perm]
+        if got_s != want_s:
+            rule.fail(f"_generate_static_instances[sparse extra columns, row order {perm}]", "every extra cell of every choice is in its item", gsi.loc(), why_fail=f"got {got_s!r}, expected {want_s!r}")
+            break
+    else:
+        rule.ok("_generate_static_instances[sparse extra columns, all 24 row orders]", "every extra cell of every choice is in its item, whichever row comes first", gsi.loc())
+
+
 def has_external_choices_obligations(ctx, rule, rid):
     """The decision whether itemsets.csv is produced: true iff an external select occurs anywhere in the JSON form."""
     he = ctx.func("pyxform.utils:has_external_choices", rid)
@@ -177,6 +206,7 @@ def run(ctx):
         r2.check(ok and shape == want and all(i.tag == "item" for i in items), f"_generate_static_instances[requires_itext={req}]",
                  "one item per choice in order: [itextId] name [label] extra columns in column order", gsi.loc(), why_fail=repr(shape))
         r2.check(info.get("name") == "lst" and info.get("type") == "choice" and info.get("src") is None, f"_generate_static_instances[requires_itext={req}]:info", "instance is registered under the list name", gsi.loc())
+    sparse_extra_columns_obligation(ctx, r2, "C09.R2")
     # extra columns survive the header validator unless their header is blank or contains a space
     from .c01 import choice_header_obligations
     choice_header_obligations(ctx, r2, "C09.R2")
